@@ -3,7 +3,6 @@ Model (Model/Board.v, theorems in Props/C11.v) vs the file written by write_robo
 line / the manual entry point and read back with conditionalrewards.read_dict_from_file; independent
 Python predicates on the games read back; every game is then solved in both pruning modes."""
 import os
-from concurrent.futures import ProcessPoolExecutor
 from common import enc, dec, P1, P2, PR
 import impl
 import boards_common as bc
@@ -76,7 +75,7 @@ def game_problems(key, g, L, W):
     return out
 
 
-def item_problems(arg):
+def item_check(arg):
     case, games = arg
     bad = bc.well_shaped(games)
     if bad:
@@ -90,41 +89,23 @@ def item_problems(arg):
     return out
 
 
-_pool = None
-
-
-def pool():
-    global _pool
-    if _pool is None:
-        _pool = ProcessPoolExecutor(max_workers=16)
-    return _pool
-
-
-def check_items(ctx, items):
-    """python predicates on every item; returns the items that are fit for solving"""
+def check_items(ctx, lights):
+    """record the verdicts of the python predicates (computed in the worker processes); returns the items
+    that are fit for solving"""
     good = []
-    todo = []
-    for it in items:
+    for it in lights:
         ctx.evaluations += 1
         c = it["case"]
         if "L" in c:
             ctx.count("%s:%dx%d" % (it["src"], c["L"], c["W"]) if c["L"] * c["W"] <= 4 else "%s:>4 tiles" % it["src"])
-            if c["L"] * c["W"] >= 2:
+            if c["L"] * c["W"] >= 2 and "moves" in c:
                 ctx.nontrivial.add(bc.case_key(c))
-        if it["games"] is None:
-            r = {k: v for k, v in it["res"].items() if k not in ("text", "ok", "read")}
+        if not it["has_games"]:
+            r = it["res"]
             ctx.violation("no loadable three-game file was produced (%s)" % (r.get("exc") or r.get("read_exc") or r),
                           bc.public(c), impl=r)
-            continue
-        todo.append(it)
-    args = [(it["case"], it["games"]) for it in todo]
-    if len(args) > 2000:
-        probs = list(pool().map(item_problems, args, chunksize=256))
-    else:
-        probs = [item_problems(a) for a in args]
-    for it, pr in zip(todo, probs):
-        if pr:
-            ctx.violation("; ".join(pr[:4]), bc.public(it["case"]), src=it["src"])
+        elif it.get("problems"):
+            ctx.violation("; ".join(it["problems"][:4]), bc.public(c), src=it["src"])
         else:
             good.append(it)
     return good
@@ -255,7 +236,7 @@ def solve_items(ctx, items, limit, tag, short=4):
     call the solver again). Termination is claimed on inputs that pass term_guard; the others are solved with a
     short limit and their outcome is only counted (known finding: the reward loop can diverge)."""
     gs = [it["games"] for it in items]
-    guards = list(pool().map(item_guards, gs, chunksize=64)) if len(gs) > 500 else [item_guards(x) for x in gs]
+    guards = list(bc.pool().map(item_guards, gs, chunksize=64)) if len(gs) > 500 else [item_guards(x) for x in gs]
     first = [(it, k, gd[k]) for it, gd in zip(items, guards) for k in bc.KEYS]
     res1 = impl.run_cases([dict(op="solve", game=enc(it["games"][k]), prune=True, limit=limit if gd[0] else short)
                            for it, k, gd in first], limit=limit, tag=tag + "p")
@@ -310,41 +291,50 @@ def known_witnesses(ctx):
             ctx.known_hits.append((kf.get("id"), kf.get("line") or "%s still does not terminate" % kf.get("id")))
 
 
+def keep_for_solving(ctx, batch):
+    """(src, case, model) -> (src, case, model, keep_games): which boards are solved (budget)"""
+    out = []
+    k3 = k4 = 0
+    for src, c, m in batch:
+        keep = src in ("rnd", "big", "replay")
+        if src == "exh":
+            if c["L"] * c["W"] <= 2 or not ctx.quick:
+                keep = True
+            else:
+                keep = (k3 % 8 == 0)
+                k3 += 1
+        elif src == "exh4":
+            keep = (k4 % 32 == 0)
+            k4 += 1
+        out.append((src, c, m, keep))
+    return out
+
+
 def run(ctx):
     import time
     nb = 0
-    tm = {"impl": 0.0, "coq": 0.0, "predicates": 0.0, "solve": 0.0}
+    tm = {"impl+predicates+coq": 0.0, "solve": 0.0}
     for batch in bc.case_batches(ctx, "c11"):
         t0 = time.time()
-        items = bc.run_batch(batch, "c11_%d" % nb)
+        lights = bc.process_batch(ctx, keep_for_solving(ctx, batch), "c11_%d" % nb, "c11")
+        good = check_items(ctx, lights)
         t1 = time.time()
-        bc.correspondence(ctx, items, "c11_%d" % nb)
-        t2 = time.time()
-        good = check_items(ctx, items)
-        t3 = time.time()
-        tm["impl"] += t1 - t0; tm["coq"] += t2 - t1; tm["predicates"] += t3 - t2
-        if nb == 0 and good:
-            it = good[len(good) // 2]
+        kept = [it for it in good if "games" in it]
+        if nb == 0 and kept:
+            it = kept[len(kept) // 2]
             ctx.sample(dict(board=bc.public(it["case"]), game_a=str(it["games"]["game_a"])[:400]))
-        small = [it for it in good if it["src"] in ("exh", "rnd")]
-        if ctx.quick:
-            # budget: every board with <= 2 tiles, every random board, one in 8 of the 3-tile boards
-            three = [it for it in small if it["src"] == "exh" and it["case"]["L"] * it["case"]["W"] == 3]
-            keep = set(id(it) for k, it in enumerate(three) if k % 8 == 0)
-            small = [it for it in small if not (it["src"] == "exh" and it["case"]["L"] * it["case"]["W"] == 3)
-                     or id(it) in keep]
-        four = [it for k, it in enumerate(it for it in good if it["src"] == "exh4") if k % 16 == 0]
-        bigs = [it for it in good if it["src"] == "big"]
-        solve_items(ctx, small + four, 60, "c11s%d" % nb)
+        solve_items(ctx, [it for it in kept if it["src"] != "big"], 60, "c11s%d" % nb)
+        bigs = [it for it in kept if it["src"] == "big"]
         if bigs:
             solve_items(ctx, bigs, 300, "c11sb%d" % nb)
-        tm["solve"] += time.time() - t3
+        tm["impl+predicates+coq"] += t1 - t0; tm["solve"] += time.time() - t1
         nb += 1
     ctx.notes.append("seconds per phase (board batches): %s" % {k: round(v, 1) for k, v in tm.items()})
     entry = bc.build_entry_items(ctx, "c11e")
     fine = [it for it in entry if check_entry(ctx, it)]
-    bc.correspondence(ctx, entry, "c11e")
-    good = check_items(ctx, fine)
+    lights = bc.process_items(ctx, entry, "c11e", "c11")
+    fine_ids = set(id(it["case"]) for it in fine)
+    good = check_items(ctx, [it for it in lights if id(it["case"]) in fine_ids])
     for it in good[:2]:
         ctx.sample(dict(entry=it["src"], argv=it["case"].get("argv"), files=it["res"].get("files")))
     solve_items(ctx, good, 60, "c11se")
@@ -358,8 +348,7 @@ def run(ctx):
     if UNGUARDED_TIMEOUTS:
         ctx.notes.append("%d solves of inputs outside the termination guard did not finish within the short limit "
                          "(known finding: the reward loop diverges); first: %s" % (len(UNGUARDED_TIMEOUTS), UNGUARDED_TIMEOUTS[0]))
-    if _pool is not None:
-        _pool.shutdown()
+    bc.shutdown()
 
 
 def replay(ctx, data):
@@ -374,12 +363,12 @@ def replay(ctx, data):
         ok = check_entry(ctx, it)
         print("command line", v["argv"], "->", r.get("rc"), r.get("files"), "ok" if ok else ctx.violations)
         return 0 if ok else 1
-    items = bc.run_batch([("replay", v, True)], "c11r")
-    bc.correspondence(ctx, items, "c11r")
-    good = check_items(ctx, items)
+    lights = bc.process_batch(ctx, [("replay", v, True, True)], "c11r", "c11")
+    good = check_items(ctx, lights)
     solve_items(ctx, good, 60, "c11rs")
     for x in ctx.violations:
         print("violation:", x["what"])
     for x in ctx.corr_breaks:
         print("model/implementation mismatch:", x["what"])
+    bc.shutdown()
     return 1 if (ctx.violations or ctx.corr_breaks) else 0
